@@ -65,6 +65,17 @@ def _header_size(ctx: Ctx) -> int:
 
 def run(ctx: Ctx):
     model = ctx.model
+    from .common_node import names_resolve
+    names_resolve(ctx, "C05-RN")
+    from .common_node import received_chunks_are_immutable_bytes
+    received_chunks_are_immutable_bytes(ctx, "C05-R9")
+    # "nor stop servicing the connection silently": nothing escapes the reader's thread function
+    from . import c14 as _c14
+    ctx.include(_c14.run, {"C14-R1"}, "C05-R10",
+                "no exception escapes PeerConnection.work_read_queue (an escaping exception ends "
+                "the reader thread: the connection stays open and ready, the frames behind are "
+                "never delivered)", floor=1,
+                constructs=lambda c: c.startswith("PeerConnection.work_read_queue"))
     peer = model.module("node.peer")
     pc = peer.classes.get("PeerConnection")
     if pc is None:
